@@ -2,6 +2,7 @@
 import atexit
 import copy
 import itertools
+import json
 import os
 import pickle
 import random
@@ -38,7 +39,9 @@ RULE = ('value case = one described serializable value (primitives incl. special
         'as a record of open_jsonl/open_sequence (new file or append), pickle, copy.deepcopy) '
         'with equality (NaN-aware; functions carried as code: same code, same defaults, same '
         'result of a call that relies on the defaults), type, pg.hash, tree_ok, schema_ok and a '
-        'differential invalid-write monitor; non-trivial = the value has at least 2 description nodes, '
+        'differential invalid-write monitor, and the read path repeated: the same in-memory '
+        'JSON value (to_json output or the json.loads of its text) loaded two or three times '
+        'by pg.from_json and Dict/List/Object.from_json, every load equal to the original; non-trivial = the value has at least 2 description nodes, '
         'distinct by description. history case = one history of save/overwrite/rm/'
         'writefile/sequence write+append operations, interleaved with reader handles that '
         'stay open over later operations (pg.io.open read in pieces by read(n)/read()/'
@@ -52,7 +55,7 @@ RULE = ('value case = one described serializable value (primitives incl. special
         'otherwise only now and then), and every read of an open handle against the content '
         'its path had when it was opened; non-trivial = at least 8 successful writes with an overwrite and an '
         'append, distinct by (file system, operation sequence).')
-REQUIRED_COUNTERS = ['roundtrips', 'file_roundtrips', 'roundtrips_with_function_defaults',
+REQUIRED_COUNTERS = ['roundtrips', 'file_roundtrips', 'reload_checks', 'roundtrips_with_function_defaults',
                      'eq_checks', 'type_checks', 'hash_checks', 'tree_ok_evals',
                      'schema_ok_evals', 'invalid_writes_rejected', 'persist_ops',
                      'persist_content_checks', 'persist_load_checks',
@@ -74,6 +77,8 @@ ASSUMPTIONS = [
     'pickles functions by qualified name)',
     'a file codec is layered over the string form (skipped when that failed) and judged by '
     'no exception, record count, type, equality and hash only',
+    'whether from_json leaves its input textually unchanged is left open (type names are '
+    'resolved in place); only the values of repeated loads are judged',
     'a write that raised: the path must afterwards hold the previous or the new content '
     '(which of the two is left open); then the path is forgotten',
     'pickle drops the value spec of a root pg.Dict/pg.List (stated in the library); the '
@@ -476,6 +481,85 @@ def check(codec, d, family, c=None, variant=0, wseed=0):
   return first_per_clause(problems)
 
 
+# -- the read path: one JSON value loaded more than once ---------------------------
+
+def _loaders(d, v):
+  """{name: load(json, kw)} of the documented ways to load the object form."""
+  out = {'pg.from_json': lambda j, kw: pg.from_json(j, **kw)}
+  if d[0] in ('D', 'd', 'TD'):
+    out['Dict.from_json'] = lambda j, kw: pg.Dict.from_json(j, **kw)
+  elif d[0] in ('L', 'l', 'TL'):
+    out['List.from_json'] = lambda j, kw: pg.List.from_json(j, **kw)
+  elif d[0] in ('O', 'P'):
+    # (the documented input of cls.from_json is the dict without '_type')
+    out['Object.from_json'] = lambda j, kw: type(v).from_json(
+        {k: x for k, x in j.items() if k != '_type'}, **kw)
+  return out
+
+
+def reload_check(d, c=None, variant=0, only=None):
+  """Loads the same in-memory JSON value (the output of to_json, or what
+  json.loads returns for its text) two or three times, by pg.from_json and by
+  cls.from_json: every load must return the original value. Returns
+  [(clause, mechanism, detail)]; `only` restricts the loaders to one."""
+  count = (lambda n: None) if c is None else (lambda n: c.update([n]))
+  if not S.has_nan(d) and not _REBUILD.get(repr(d), (True, True))[0]:
+    return []
+  v = S.build(d)
+  j = v.to_json() if (isinstance(v, pg.Symbolic) and variant & 1) else pg.to_json(v)
+  if variant & 4:
+    try:
+      j2 = json.loads(json.dumps(j))
+      if j2 == j:                       # (no int keys, no NaN: the same JSON value)
+        j = j2
+        count('reload_inputs_from_json_loads')
+    except Exception:  # pylint: disable=broad-except
+      pass
+  loaders = _loaders(d, v)
+  names = [only] if only else sorted(loaders)
+  n = 2 + ((variant >> 3) & 1)
+  nan = S.has_nan(d)
+  count('reload_checks')
+  used = []
+  for i in range(n):
+    name = names[((variant >> (i + 1)) & 1) % len(names)]
+    used.append(name)
+    kw = {}
+    if S.is_partial(d):
+      kw['allow_partial'] = True
+    vs = S.root_value_spec(d)
+    if vs is not None:
+      kw['value_spec'] = vs
+    count('reload_loads')
+    count('reload_loader:' + name)
+    # the first load is an ordinary load by that entry point, the later ones
+    # are loads of an input that has been loaded before
+    mech = f'json/{name}' if i == 0 else 'json/reload-same-input'
+    if i and only is None and any(u != 'pg.from_json' for u in used):
+      # does it take cls.from_json? (the same loads by pg.from_json only)
+      if not reload_check(d, None, variant, only='pg.from_json'):
+        mech += '(cls.from_json)'
+    try:
+      back = loaders[name](j, kw)
+    except Exception as e:  # pylint: disable=broad-except
+      return [('roundtrip-raises', mech, f'load {i + 1} of the same JSON value by '
+               f'{" then ".join(used)} raised {type(e).__name__}: {e!s:.200}')]
+    problems = []
+    compare(v, back, True, '', problems)
+    if not problems and not nan:
+      try:
+        if not (pg.eq(v, back) and pg.eq(back, v)):
+          problems.append(('not-equal', f'pg.eq(original, restored) is False: '
+                           f'{v!r:.120} -> {back!r:.120}'))
+      except Exception as e:  # pylint: disable=broad-except
+        problems.append(('not-equal', f'pg.eq raised {type(e).__name__}: {e!s:.200}'))
+    if problems:
+      clause, detail = problems[0]
+      return [(clause, mech, f'load {i + 1} of the same JSON value by {" then ".join(used)}: '
+               f'{detail}')]
+  return []
+
+
 def group(clause):
   return 'differs' if clause in ('type-differs', 'not-equal') else clause
 
@@ -546,6 +630,30 @@ def value_case(ctx, i):
           {'family': family, 'desc': d, 'minimal': small, 'codec': codec,
            'variant': variant})
       summary[f'{clause}:{codec}'] = S.kind(small)
+  if not failed_json:
+    ctx.label = 'json/reload'
+    found = reload_check(d, c, variant)
+    ctx.label = None
+    for clause, mech, detail in found:
+      if mech.startswith('json/reload-same-input'):
+        small = d
+      else:
+        # a first load by cls.from_json: the class of value decides
+        def observed(cand, clause=clause, mech=mech):
+          try:
+            return [cl for cl, m, _ in reload_check(cand, None, variant)
+                    if group(cl) == group(clause) and m.split('.')[-1] == mech.split('.')[-1]]
+          except Exception:  # pylint: disable=broad-except
+            return []
+        small = S.minimise(d, observed, budget=80)
+        mech = f'{mech}/{S.kind(small)}'
+      ctx.violation(clause, mech,
+                    printable(f'{detail}\nvalue: {S.show(d):.600}\nminimal: {S.show(small):.300}'),
+                    {'family': family, 'desc': d, 'minimal': small, 'codec': 'json-reload',
+                     'variant': variant})
+      summary[f'{clause}:reload'] = mech
+  else:
+    c['reload_subsumed_by_json'] += 1
   if S.size(d) >= 2 or family not in ('prim', 'symbol'):
     ctx.mark_nontrivial(('value', d))
   if i < 2:
